@@ -24,6 +24,12 @@ fn main() {
             let rep = rawdb_suite::run(arg(&args, "--depth", 3usize), arg(&args, "--random-secs", 5u64), arg(&args, "--random-depth", 12usize), seed, thorough, threads);
             println!("{}", rep.to_json());
         }
+        "vecpages" => {
+            unsafe { std::env::set_var("RAC_PAGE_ALPHABET", "1"); }
+            let fmt: String = arg(&args, "--format", "pco".to_string());
+            let rep = vec_suite::run(&fmt, arg(&args, "--depth", 3usize), arg(&args, "--random-secs", 5u64), arg(&args, "--random-depth", 10usize), seed, thorough, threads);
+            println!("{}", rep.to_json());
+        }
         "vec" => {
             let fmt: String = arg(&args, "--format", "bytes".to_string());
             let rep = vec_suite::run(&fmt, arg(&args, "--depth", 3usize), arg(&args, "--random-secs", 5u64), arg(&args, "--random-depth", 12usize), seed, thorough, threads);
